@@ -794,6 +794,29 @@ func (e *Env) evalCall(x *Expr) (SV, error) {
 		name := "un" + boxName(gt)
 		c.DeclareFun(name, []*Sort{SInt}, so)
 		return SV{T: c.App(name, so, a.T), GoT: gt}, nil
+	case "box":
+		// box(x, "T"): the interface value holding x of concrete type T - the same function the engine uses when the code converts
+		// a T to an interface (MakeInterface); lets a lib spec state facts about a callee applied to a boxed value, e.g.
+		// sdk.UnwrapSDKContext(ctx) for an sdk.Context. typeof / unbox of the result are the engine's: unbox(box(x)) == x is
+		// assumed wherever the code itself boxes; here only the term is built.
+		if len(x.Args) != 2 || x.Args[1].Kind != "str" {
+			return SV{}, serr("box(x, \"T\") in %s", x)
+		}
+		a, err := e.Eval(x.Args[0])
+		if err != nil {
+			return SV{}, err
+		}
+		so, gt, err := v.resolveType(x.Args[1].Name)
+		if err != nil {
+			return SV{}, err
+		}
+		if gt == nil || a.T.Sort != so {
+			return SV{}, serr("box: value of Go type %s expected in %s", x.Args[1].Name, x)
+		}
+		if _, isIface := gt.Underlying().(*types.Interface); isIface {
+			return a, nil
+		}
+		return SV{T: c.UF(boxName(gt), SInt, a.T)}, nil
 	case "implements":
 		// implements(x, "I"): x.(I) succeeds for interface type I (the engine's model of a type assertion to an interface)
 		if len(x.Args) != 2 || x.Args[1].Kind != "str" {
